@@ -6,12 +6,17 @@
   invisible wrapper.
 
   Text level (through the character-level lexer `lexStrict` of C01 and the lexer bridge of C11,
-  `Lemmas/FormatLex*.lean`; new lemmas in `Lemmas/FormatLexPretty.lean`, `Lemmas/FormatLexPrettyLayout.lean`):
-  `mini_output_fixed_point_text` (mini² = mini), `pretty_text_stable` (pretty³ = pretty²), `pretty_text_layout` (the
-  layout law read off the output text), for every strict single-root document.
+  `Lemmas/FormatLex*.lean`; lemmas in `Lemmas/FormatLexPretty.lean`, `FormatLexPrettyLayout.lean`,
+  `FormatLexPrettyMulti.lean`, `FormatLexMiniText.lean`):
+  `mini_output_fixed_point_text` (mini² = mini), `pretty_text_stable` (pretty³ = pretty²), `pretty_text_layout…` (the
+  layout law read off the output text; any token sequence whose tree is strict, unclosed tails included),
+  `mini_output_text_runs` (the mini clause on the data tokens / text runs of the lexed output), for strict single-root
+  documents, and their `…_multi` counterparts for multi-root documents.
 -/
 import AHP.Lemmas.Format
 import AHP.Lemmas.FormatLexPrettyLayout
+import AHP.Lemmas.FormatLexPrettyMulti
+import AHP.Lemmas.FormatLexMiniText
 namespace AHP.C12
 open AHP AHP.Fmt
 -- the lexer's side (namespace `AHP`) has declarations with the same short names as the formatter model
@@ -180,6 +185,46 @@ theorem squeeze_idempotent (s : Str) : squeeze (squeeze s) = squeeze s := squeez
 theorem reformat_tree_fixed_point (cfg : Cfg) (c : Ctx) (p : Str) (t : Node) :
     decorate cfg c p (decorate cfg c p t) = decorate cfg c p t := decorate_idem cfg c p t
 
+/-! #### C12b at text level — the mini clause read off the OUTPUT text -/
+
+/-- **C12b on the output text.**  Mini class (normal or slim elements); any token sequence whose plain-parser tree is a
+    strict document, single- or multi-root (`WrapperOK`), **adjacent data blocks allowed (no `Glued`)**.  The output text
+    lexes (`lexStrict`) to the doctype declaration followed by `glueDt (dtText dt) body`: `body` are the tokens of the
+    document's blocks, and the line break `getHTML` writes after the doctype line is a data token of its own or glued in
+    front of `body`'s leading data token (it is not text of the document).  Then, with the stack of open elements
+    recomputed from the tokens alone (`tagStack`) and `miniCare st` = "no pre/code element open and the innermost open
+    element is not script/style":
+
+    * every data or reference token `t` of `body` at a position where `miniCare` holds is a `GoodText`: it neither
+      begins nor ends with CR/LF and contains no tab — a data token of the output is several squeezed pieces glued;
+    * every **text run** of `body` (`textRuns`: maximal sequence of consecutive data and reference tokens, rendered and
+      glued) at such a position is a `GoodText`.
+
+    The known finding `C12-mini-dropped-markup` does not limit this clause (it concerns `mini² = mini`): two pieces that
+    touch because markup between them was dropped are each squeezed, and a concatenation of good texts is good.  What
+    limits it is the strict sub-language (the hypotheses `Strict`, `DtOK`); outside it: tree level
+    (`squeezed_has_no_tab`, `squeezed_has_no_outer_line_break` per piece) + the oracle `mini_text_violation`. -/
+theorem mini_output_text_runs (cfg : Cfg) (hm : cfg.mini = true) (hi : IndentWS cfg) (toks : List Tok)
+    (h : NoWrapperStart toks) (ps : St) (hp : Plain.feed toks = .ok ps)
+    (n : Str) (st : AStore) (sc : Bool) (kids : List FNode)
+    (hroot : ps.root = some (FNode.elem n st sc kids).toNode) (hw : WrapperOK n st sc kids)
+    (hs : (FNode.elem n st sc kids).Strict) (hdt : DtOK ps.doctype) :
+    ∃ out body, format cfg toks = .ok out ∧
+      lexStrict out = some (dtToks ps.doctype ++ glueDt (dtText ps.doctype) body) ∧
+      (∀ pre t post, body = pre ++ t :: post → isRunTok t = true → miniCare (tagStack [] pre) = true →
+        GoodText (renderTok t)) ∧
+      (∀ p ∈ textRuns body, miniCare p.1 = true → GoodText p.2) := by
+  obtain ⟨out, body, h1, h2, h3⟩ := mini_text_core cfg hm hi toks h ps hp n st sc kids hroot hw hs hdt
+  refine ⟨out, body, h1, h2, ?_, ?_⟩
+  · intro pre t post e hr hc
+    exact dscan_split pre [] t post (e ▸ h3) hr hc
+  · exact dscan_runs body [] [] h3 (fun _ => goodText_nil)
+
+/-- `GoodText`, spelled out -/
+theorem goodText_iff (s : Str) :
+    GoodText s ↔ (∀ c, s.head? = some c → isCRLF c = false) ∧ (∀ c, s.getLast? = some c → isCRLF c = false)
+      ∧ ∀ c ∈ s, c ≠ '\t' := Iff.rfl
+
 /-! #### C12d — stability from the second pass on -/
 
 /-- **C12d key lemma** (DESIGN §5).  In pass k+1 a text region is the pieces pass k wrote followed by the indent `I`
@@ -303,33 +348,10 @@ theorem stability_needs_blank_indent_unit :
 
 /-! #### C12a at text level — the layout law read off the output text -/
 
-/-- **C12a on the output text.**  Pretty class (normal or slim elements, indent unit of spaces/tabs), any token
-    sequence `toks` that the plain parser builds into a strict single-root document `u` without the reserved name
-    (doctype `dt`).  The output text `out` lexes (`lexStrict out = some toks2`), is the rendering of `toks2`
-    (`renderToksY`, start tags in the class's style), the tags of `toks2` are balanced (`tagStack [] toks2 = []`, every
-    end tag closes the innermost open element), and for **every position**: split `toks2 = pre ++ t :: post`, so that
-    `out = before ++ (text of t) ++ …` with `before = renderToksY … pre` the text in front of the tag, and let
-    `open_ = tagStack [] pre` be the names of the elements open at that point, recomputed from the tokens `pre` alone
-    (a start tag pushes, an end tag pops).  Then
-
-    * `t` a start tag or a self-closing tag, no pre/code element open: `before` ends with a line break followed by
-      exactly `open_.length` copies of the indent unit — the tag is the first thing on its own line, indented by
-      depth × indent;
-    * `t` the end tag `</n>`: `n` is the innermost open element; and if `n` is not pre/code and no pre/code element
-      encloses it, `before` ends with a line break followed by exactly `(depth of that element)` copies of the unit —
-      the end tag is on its own line at the indentation of its start tag.  No exception is needed for script/style:
-      `getEndTag` omits the indent only when the content already ends with it.
-
-    (`layout_reads_as_line`: since the unit has no line break, "ends with LF + d units" = "the last line of `before` is
-    exactly d units".)  `pretty_text_layout` is the instance for the tokens of a strict document,
-    `pretty_text_layout_second_pass` the one for the re-tokenised output of pass 1. -/
-theorem pretty_text_layout_tokens (cfg : Cfg) (hm : cfg.mini = false) (hi : IndentWS cfg) (dt : Option Str)
-    (hdt : DtOK dt) (n : Str) (st : AStore) (sc : Bool) (kids : List FNode)
-    (hs : (FNode.elem n st sc kids).Strict) (hnw : (FNode.elem n st sc kids).NoWrapper)
-    (toks : List Tok) (hnws : NoWrapperStart toks)
-    (hp : Plain.feed toks = .ok ⟨[], some (FNode.elem n st sc kids).toNode, dt, 0, 0⟩) :
-    ∃ out toks2, format cfg toks = .ok out ∧ lexStrict out = some toks2 ∧ tagStack [] toks2 = [] ∧
-      ∀ pre t post, toks2 = pre ++ t :: post →
+/-- `Scan` read position by position (shared by the single- and multi-root layout statements) -/
+theorem scan_positions (cfg : Cfg) (out : Str) (toks2 : List Token)
+    (h3 : out = renderToksY (styleOf cfg.kind) toks2) (h4 : Scan (styleOf cfg.kind) cfg.indent [] [] toks2) :
+    ∀ pre t post, toks2 = pre ++ t :: post →
         out = renderToksY (styleOf cfg.kind) pre ++ renderTokY (styleOf cfg.kind) t
                 ++ renderToksY (styleOf cfg.kind) post
         ∧ (∀ m a, t = .start m a ∨ t = .startend m a → noPre (tagStack [] pre) = true →
@@ -337,8 +359,6 @@ theorem pretty_text_layout_tokens (cfg : Cfg) (hm : cfg.mini = false) (hi : Inde
         ∧ (∀ m, t = .end_ m → (tagStack [] pre).head? = some m ∧
             (isPre m = false → noPre (tagStack [] pre).tail = true →
               ∃ x, renderToksY (styleOf cfg.kind) pre = x ++ '\n' :: rep ((tagStack [] pre).length - 1) cfg.indent)) := by
-  obtain ⟨out, toks2, h1, h2, h3, h4⟩ := pretty_layout_core cfg hm hi dt hdt n st sc kids hs hnw toks hnws hp
-  refine ⟨out, toks2, h1, h2, scan_balanced _ _ _ _ _ h4, ?_⟩
   intro pre t post hsplit
   have hat := scan_split (styleOf cfg.kind) cfg.indent pre [] [] t post (hsplit ▸ h4)
   simp only [List.nil_append] at hat
@@ -358,6 +378,49 @@ theorem pretty_text_layout_tokens (cfg : Cfg) (hm : cfg.mini = false) (hi : Inde
     obtain ⟨x, hx⟩ := hat.2 h1 h2
     exact ⟨x, hx.symm⟩
 
+/-- **C12a on the output text.**  Pretty class (normal or slim elements, indent unit of spaces/tabs), any token
+    sequence `toks` whose plain-parser tree — `ps.root`, **elements still open at the end of the input included**: the
+    final state `ps` may have a non-empty stack, `getHTML` serialises the tree with them closed — is a strict single-root
+    document `u` without the reserved name (doctype `ps.doctype`).  (Implicit closes inside `toks` are allowed as long as
+    the resulting tree is strict; stray end tags leave no trace in the tree.)  The output text `out` lexes
+    (`lexStrict out = some toks2`), is the rendering of `toks2`
+    (`renderToksY`, start tags in the class's style), the tags of `toks2` are balanced (`tagStack [] toks2 = []`, every
+    end tag closes the innermost open element), and for **every position**: split `toks2 = pre ++ t :: post`, so that
+    `out = before ++ (text of t) ++ …` with `before = renderToksY … pre` the text in front of the tag, and let
+    `open_ = tagStack [] pre` be the names of the elements open at that point, recomputed from the tokens `pre` alone
+    (a start tag pushes, an end tag pops).  Then
+
+    * `t` a start tag or a self-closing tag, no pre/code element open: `before` ends with a line break followed by
+      exactly `open_.length` copies of the indent unit — the tag is preceded on its line by depth × indent and nothing
+      else (text may FOLLOW a tag on the same line: "on its own line" is proved as "preceded by LF + depth × unit");
+    * `t` the end tag `</n>`: `n` is the innermost open element; and if `n` is not pre/code and no pre/code element
+      encloses it, `before` ends with a line break followed by exactly `(depth of that element)` copies of the unit —
+      the end tag is preceded on its line by the indentation of its start tag.  No exception is needed for script/style:
+      `getEndTag` omits the indent only when the content already ends with it.
+
+    (`layout_reads_as_line`: since the unit has no line break, "ends with LF + d units" = "the last line of `before` is
+    exactly d units".)  `pretty_text_layout` is the instance for the tokens of a strict document,
+    `pretty_text_layout_second_pass` the one for the re-tokenised output of pass 1, `pretty_text_layout_multi` the
+    multi-root counterpart. -/
+theorem pretty_text_layout_tokens (cfg : Cfg) (hm : cfg.mini = false) (hi : IndentWS cfg)
+    (n : Str) (st : AStore) (sc : Bool) (kids : List FNode)
+    (hs : (FNode.elem n st sc kids).Strict) (hnw : (FNode.elem n st sc kids).NoWrapper)
+    (toks : List Tok) (hnws : NoWrapperStart toks) (ps : St)
+    (hp : Plain.feed toks = .ok ps) (hroot : ps.root = some (FNode.elem n st sc kids).toNode)
+    (hdt : DtOK ps.doctype) :
+    ∃ out toks2, format cfg toks = .ok out ∧ lexStrict out = some toks2 ∧ tagStack [] toks2 = [] ∧
+      ∀ pre t post, toks2 = pre ++ t :: post →
+        out = renderToksY (styleOf cfg.kind) pre ++ renderTokY (styleOf cfg.kind) t
+                ++ renderToksY (styleOf cfg.kind) post
+        ∧ (∀ m a, t = .start m a ∨ t = .startend m a → noPre (tagStack [] pre) = true →
+            ∃ x, renderToksY (styleOf cfg.kind) pre = x ++ '\n' :: rep (tagStack [] pre).length cfg.indent)
+        ∧ (∀ m, t = .end_ m → (tagStack [] pre).head? = some m ∧
+            (isPre m = false → noPre (tagStack [] pre).tail = true →
+              ∃ x, renderToksY (styleOf cfg.kind) pre = x ++ '\n' :: rep ((tagStack [] pre).length - 1) cfg.indent)) := by
+  obtain ⟨out, toks2, h1, h2, h3, h4⟩ :=
+    pretty_layout_core_open cfg hm hi ps.doctype hdt n st sc kids hs hnw toks hnws ps hp hroot rfl
+  exact ⟨out, toks2, h1, h2, scan_balanced _ _ _ _ _ h4, scan_positions cfg out toks2 h3 h4⟩
+
 /-- `pretty_text_layout_tokens` for the token sequence of a strict single-root document (what `lexStrict` returns on
     any serialisation of it, C01): the output of the first pretty pass obeys the layout law. -/
 theorem pretty_text_layout (cfg : Cfg) (hm : cfg.mini = false) (hi : IndentWS cfg) (dt : Option Str)
@@ -373,8 +436,8 @@ theorem pretty_text_layout (cfg : Cfg) (hm : cfg.mini = false) (hi : IndentWS cf
         ∧ (∀ m, t = .end_ m → (tagStack [] pre).head? = some m ∧
             (isPre m = false → noPre (tagStack [] pre).tail = true →
               ∃ x, renderToksY (styleOf cfg.kind) pre = x ++ '\n' :: rep ((tagStack [] pre).length - 1) cfg.indent)) :=
-  pretty_text_layout_tokens cfg hm hi dt hdt n st sc kids hs hnw _ (noWrapperStart_strictToks dt _ hs hnw)
-    (plain_feed_strictToks dt hdt n st sc kids hs)
+  pretty_text_layout_tokens cfg hm hi n st sc kids hs hnw _ (noWrapperStart_strictToks dt _ hs hnw) _
+    (plain_feed_strictToks dt hdt n st sc kids hs) rfl hdt
 
 /-- … and so does the output of the second pass (the formatter fed the tokens the lexer reads from pass 1's output) —
     hence, with `pretty_text_stable`, of every later pass. -/
@@ -393,8 +456,101 @@ theorem pretty_text_layout_second_pass (cfg : Cfg) (hm : cfg.mini = false) (hi :
               ∃ x, renderToksY (styleOf cfg.kind) pre = x ++ '\n' :: rep ((tagStack [] pre).length - 1) cfg.indent)) := by
   obtain ⟨f1, l1, w1, p1, s1, n1⟩ := pass_step cfg hi dt hdt n st sc kids hs hnw _
     (noWrapperStart_strictToks dt _ hs hnw) (plain_feed_strictToks dt hdt n st sc kids hs)
-  obtain ⟨out2, toks3, g1, g2, g3, g4⟩ := pretty_text_layout_tokens cfg hm hi dt hdt n st sc _ s1 n1 _ w1 p1
+  obtain ⟨out2, toks3, g1, g2, g3, g4⟩ := pretty_text_layout_tokens cfg hm hi n st sc _ s1 n1 _ w1 _ p1 rfl hdt
   exact ⟨_, _, out2, toks3, f1, l1, g1, g2, g3, g4⟩
+
+/-! #### the text-level statements for MULTI-ROOT documents (the invisible wrapper) -/
+
+/-- **C12d on text, multi-root: pretty³ = pretty².**  As `pretty_text_stable`, for a strict multi-root document: `kids`
+    are the top-level blocks (text, references, comments, elements — `topScan false kids = none` says a first parser pass
+    rejects them, so the parser wraps them in the invisible root), `strictToksM dt kids` their tokens after the doctype
+    declaration.  `getHTML` prints the doctype line, a line break and the blocks; on re-parsing that line break is text
+    of the wrapper, and the next pass strips it again (`squeeze_dtText`) — which is why the proof goes through. -/
+theorem pretty_text_stable_multi (cfg : Cfg) (hm : cfg.mini = false) (hi : IndentWS cfg) (dt : Option Str)
+    (hdt : DtOK dt) (kids : List FNode) (hs : StrictL kids) (hnw : NoWrapperL kids)
+    (hmulti : topScan false kids = none) :
+    ∃ out1 toks2 out2 toks3 out3,
+      format cfg (strictToksM dt kids) = .ok out1 ∧ lexStrict out1 = some toks2 ∧
+      format cfg (toks2.map Tok.ofToken) = .ok out2 ∧ lexStrict out2 = some toks3 ∧
+      format cfg (toks3.map Tok.ofToken) = .ok out3 ∧ out3 = out2 := by
+  obtain ⟨out1, toks2, out2, toks3, h1, h2, h3, h4, h5⟩ :=
+    pretty_text_stable_multi_core cfg hm hi dt hdt kids hs hnw hmulti
+  exact ⟨out1, toks2, out2, toks3, out2, h1, h2, h3, h4, h5, rfl⟩
+
+/-- **pretty³ = pretty² from any token sequence** (review M4: `pretty_text_stable` starts from the tokens of the tree): pass
+    1 may be fed ANY token sequence whose plain-parser tree is a strict single-root document (implicit closes, elements
+    left open at the end of the input), or (`…_multi`) a strict multi-root document. -/
+theorem pretty_text_stable_tokens (cfg : Cfg) (hm : cfg.mini = false) (hi : IndentWS cfg)
+    (n : Str) (st : AStore) (sc : Bool) (kids : List FNode)
+    (hs : (FNode.elem n st sc kids).Strict) (hnw : (FNode.elem n st sc kids).NoWrapper)
+    (toks : List Tok) (hnws : NoWrapperStart toks) (ps : St) (hp : Plain.feed toks = .ok ps)
+    (hroot : ps.root = some (FNode.elem n st sc kids).toNode) (hdt : DtOK ps.doctype) :
+    ∃ out1 toks2 out2 toks3 out3, format cfg toks = .ok out1 ∧ lexStrict out1 = some toks2 ∧
+      format cfg (toks2.map Tok.ofToken) = .ok out2 ∧ lexStrict out2 = some toks3 ∧
+      format cfg (toks3.map Tok.ofToken) = .ok out3 ∧ out3 = out2 := by
+  obtain ⟨out1, toks2, out2, toks3, h1, h2, h3, h4, h5⟩ :=
+    pretty_text_stable_core_open cfg hm hi n st sc kids hs hnw toks hnws ps hp hroot hdt
+  exact ⟨out1, toks2, out2, toks3, out2, h1, h2, h3, h4, h5, rfl⟩
+
+theorem pretty_text_stable_tokens_multi (cfg : Cfg) (hm : cfg.mini = false) (hi : IndentWS cfg)
+    (kids : List FNode) (hs : StrictL kids) (hnw : NoWrapperL kids) (hmulti : topScan false kids = none)
+    (toks : List Tok) (hnws : NoWrapperStart toks) (ps : St) (hp : Plain.feed toks = .ok ps)
+    (hroot : ps.root = some (FNode.elem wrapper {} false kids).toNode) (hdt : DtOK ps.doctype) :
+    ∃ out1 toks2 out2 toks3 out3, format cfg toks = .ok out1 ∧ lexStrict out1 = some toks2 ∧
+      format cfg (toks2.map Tok.ofToken) = .ok out2 ∧ lexStrict out2 = some toks3 ∧
+      format cfg (toks3.map Tok.ofToken) = .ok out3 ∧ out3 = out2 := by
+  obtain ⟨out1, toks2, out2, toks3, h1, h2, h3, h4, h5⟩ :=
+    pretty_text_stable_multi_core_open cfg hm hi kids hs hnw hmulti toks hnws ps hp hroot hdt
+  exact ⟨out1, toks2, out2, toks3, out2, h1, h2, h3, h4, h5, rfl⟩
+
+/-- **C12a on the output text, multi-root.**  As `pretty_text_layout_tokens`, for any token sequence whose plain-parser
+    tree is the invisible wrapper around the strict top-level blocks `kids`: the output lexes, the tags are balanced, and
+    at every position the layout law holds with depth recomputed from the tokens alone — top-level elements at depth 0
+    (preceded by a line break and nothing else), the wrapper does not count. -/
+theorem pretty_text_layout_multi (cfg : Cfg) (hm : cfg.mini = false) (hi : IndentWS cfg)
+    (kids : List FNode) (hs : StrictL kids) (hnw : NoWrapperL kids) (hmulti : topScan false kids = none)
+    (toks : List Tok) (hnws : NoWrapperStart toks) (ps : St)
+    (hp : Plain.feed toks = .ok ps) (hroot : ps.root = some (FNode.elem wrapper {} false kids).toNode)
+    (hdt : DtOK ps.doctype) :
+    ∃ out toks2, format cfg toks = .ok out ∧ lexStrict out = some toks2 ∧ tagStack [] toks2 = [] ∧
+      ∀ pre t post, toks2 = pre ++ t :: post →
+        out = renderToksY (styleOf cfg.kind) pre ++ renderTokY (styleOf cfg.kind) t
+                ++ renderToksY (styleOf cfg.kind) post
+        ∧ (∀ m a, t = .start m a ∨ t = .startend m a → noPre (tagStack [] pre) = true →
+            ∃ x, renderToksY (styleOf cfg.kind) pre = x ++ '\n' :: rep (tagStack [] pre).length cfg.indent)
+        ∧ (∀ m, t = .end_ m → (tagStack [] pre).head? = some m ∧
+            (isPre m = false → noPre (tagStack [] pre).tail = true →
+              ∃ x, renderToksY (styleOf cfg.kind) pre = x ++ '\n' :: rep ((tagStack [] pre).length - 1) cfg.indent)) := by
+  obtain ⟨out, toks2, h1, h2, h3, h4⟩ :=
+    pretty_layout_core_multi cfg hm hi ps.doctype hdt kids hs hnw hmulti toks hnws ps hp hroot rfl
+  exact ⟨out, toks2, h1, h2, scan_balanced _ _ _ _ _ h4, scan_positions cfg out toks2 h3 h4⟩
+
+/-- … and so does the output of the second pass (hence, with `pretty_text_stable_multi`, of every later pass) -/
+theorem pretty_text_layout_multi_second_pass (cfg : Cfg) (hm : cfg.mini = false) (hi : IndentWS cfg) (dt : Option Str)
+    (hdt : DtOK dt) (kids : List FNode) (hs : StrictL kids) (hnw : NoWrapperL kids)
+    (hmulti : topScan false kids = none) :
+    ∃ out1 toks2 out2 toks3, format cfg (strictToksM dt kids) = .ok out1 ∧ lexStrict out1 = some toks2 ∧
+      format cfg (toks2.map Tok.ofToken) = .ok out2 ∧ lexStrict out2 = some toks3 ∧ tagStack [] toks3 = [] ∧
+      ∀ pre t post, toks3 = pre ++ t :: post →
+        out2 = renderToksY (styleOf cfg.kind) pre ++ renderTokY (styleOf cfg.kind) t
+                ++ renderToksY (styleOf cfg.kind) post
+        ∧ (∀ m a, t = .start m a ∨ t = .startend m a → noPre (tagStack [] pre) = true →
+            ∃ x, renderToksY (styleOf cfg.kind) pre = x ++ '\n' :: rep (tagStack [] pre).length cfg.indent)
+        ∧ (∀ m, t = .end_ m → (tagStack [] pre).head? = some m ∧
+            (isPre m = false → noPre (tagStack [] pre).tail = true →
+              ∃ x, renderToksY (styleOf cfg.kind) pre = x ++ '\n' :: rep ((tagStack [] pre).length - 1) cfg.indent)) := by
+  obtain ⟨f1, l1, w1, p1, s1, n1, m1⟩ := pass_step_multi cfg hi dt hdt kids hs hnw hmulti _
+    (noWrapperStart_toksM dt kids hs hnw) _ (plain_feed_strictToksM dt hdt kids hs hmulti) rfl rfl
+  obtain ⟨out2, toks3, g1, g2, g3, g4⟩ := pretty_text_layout_multi cfg hm hi _ s1 n1 m1 _ w1 _ p1 rfl hdt
+  exact ⟨_, _, out2, toks3, f1, l1, g1, g2, g3, g4⟩
+
+/-- **mini² = mini on text, multi-root** (mini classes, strict multi-root document without adjacent data blocks) -/
+theorem mini_output_fixed_point_text_multi (cfg : Cfg) (hm : cfg.mini = true) (hi : IndentWS cfg) (dt : Option Str)
+    (hdt : DtOK dt) (kids : List FNode) (hs : StrictL kids) (hg : GluedL kids) (ha : FNoAdjL kids)
+    (hnw : NoWrapperL kids) (hmulti : topScan false kids = none) :
+    ∃ out toks2, format cfg (strictToksM dt kids) = .ok out ∧ lexStrict out = some toks2 ∧
+      format cfg (toks2.map Tok.ofToken) = .ok out :=
+  mini_text_fixed_point_multi cfg hm hi dt hdt kids hs hg ha hnw hmulti
 
 /-- **The hypothesis `NoWrapper` is needed for the layout law** (the property excludes the reserved name): in the strict
     document `<div><xxxblank><p></p></xxxblank></div>` the element carrying the wrapper's name does not count as a level,
@@ -420,15 +576,17 @@ theorem layout_reads_as_line (cfg : Cfg) (hi : IndentWS cfg) (d : Nat) (before x
 /-!
   #### What is partial
 
-  * The text-level theorems (`mini_output_fixed_point_text`, `pretty_text_stable`, `pretty_text_layout…`) are stated for
-    the strict sub-language the lexer bridge of C11 covers: single-root documents whose tree is `FNode.Strict` (well-formed
-    names and attribute items, text blocks that are data runs / references / comments other than the singletons `<` `&`,
-    raw-text content free of its closing expression, attribute stores re-read unchanged), doctype absent or a
-    `doctype …` declaration, reserved name absent, indent unit of spaces/tabs.  Multi-root documents (the invisible
-    wrapper; C11's `doc_reparse_multi` covers their re-parse) are not covered by the three-pass statement.  For
-    arbitrary token sequences (implicit closes, stray end tags, …) the tree-level statements above hold
-    (`indentation_law`, `reformat_tree_fixed_point`); the tie runs passes 1–3 of every case through model and library and
-    the oracles check the layout on passes 1 and 2, `pass 3 = pass 2` and `mini² = mini` on the real code.
+  * The text-level theorems (`mini_output_fixed_point_text`, `pretty_text_stable`, `pretty_text_layout…`, and their
+    `…_multi` counterparts for multi-root documents) are stated for the strict sub-language the lexer bridge of C11
+    covers: documents whose plain-parser tree is `FNode.Strict` (well-formed names and attribute items, text blocks that
+    are data runs / references / comments other than the singletons `<` `&`, raw-text content free of its closing
+    expression, attribute stores re-read unchanged), doctype absent or a `doctype …` declaration, reserved name absent,
+    indent unit of spaces/tabs.  The layout statements `pretty_text_layout_tokens` / `pretty_text_layout_multi` take ANY
+    token sequence whose tree is of that kind — implicit closes and elements left open at the end of the input included;
+    the three-pass statements start from the tokens of the tree (`strictToks`, `strictToksM`).  Token sequences whose
+    tree is not strict (data singletons, ill-formed names, …) are covered by the tree-level statements above
+    (`indentation_law`, `reformat_tree_fixed_point`) and by the tie: passes 1–3 of every case run through model and
+    library, the oracles check the layout on passes 1 and 2, `pass 3 = pass 2` and `mini² = mini` on the real code.
   * `mini² = mini` needs `Glued` (no two adjacent data blocks) — without it: the known finding below.
 -/
 
@@ -494,6 +652,124 @@ example : ∃ out toks2, format (mkCfg .pretty .dflt false) (strictToks none sta
   let ⟨out, toks2, h1, h2, h3, _⟩ := pretty_text_layout (mkCfg .pretty .dflt false) rfl (by decide) none trivial
     _ _ _ _ stableTree_strict stableTree_noWrapper
   ⟨out, toks2, h1, h2, h3⟩
+
+/-- a token sequence with an implicit close (`<li>` closed by `</ul>`) that **ends with two elements still open** -/
+def openTailToks : List Tok :=
+  [.start (str "div") [], .start (str "ul") [], .start (str "li") [], .data (str "a"), .end_ (str "ul"),
+   .start (str "p") [], .data (str "b")]
+
+def openTailTree : FNode :=
+  .elem (str "div") {} false
+    [.elem (str "ul") {} false [.elem (str "li") {} false [.tok (.data (str "a"))]],
+     .elem (str "p") {} false [.tok (.data (str "b"))]]
+
+/-- `pretty_text_layout_tokens` applies to it: the final stack is not empty (`p`, `div` open) -/
+example : ∃ ps, Plain.feed openTailToks = .ok ps ∧ ps.stack.length = 2 ∧ ps.root = some openTailTree.toNode := by
+  refine ⟨_, rfl, ?_, ?_⟩
+  · decide
+  · rfl
+example : ∃ out toks2, format (mkCfg .pretty .dflt false) openTailToks = .ok out ∧ lexStrict out = some toks2 ∧
+    tagStack [] toks2 = [] :=
+  let ⟨out, toks2, h1, h2, h3, _⟩ := pretty_text_layout_tokens (mkCfg .pretty .dflt false) rfl (by decide)
+    _ _ _ _ (by simp only [FNode.Strict, StrictL]; decide)
+    (by simp only [FNode.NoWrapper, NoWrapperL]; decide) openTailToks (by decide) _ rfl
+    (show _ = some openTailTree.toNode from rfl) trivial
+  ⟨out, toks2, h1, h2, h3⟩
+example : okIs (format (mkCfg .pretty .dflt false) openTailToks)
+    "\n<div >\n  <ul >\n    <li >a\n    </li>\n  </ul>\n  <p >b\n  </p>\n</div>" = true := by decide
+/-- a multi-root document: text, two elements (one nested), a reference, a void element, trailing line break -/
+def multiKids : List FNode :=
+  [.tok (.data (str "a ")), .elem (str "b") {} false [.tok (.data (str "x")), .elem (str "i") {} false []],
+   .tok (.entity (str "amp")), .elem (str "br") {} true [], .elem (str "p") {} false [.tok (.data (str "y\n"))],
+   .tok (.data (str "\n"))]
+
+theorem multiKids_strict : StrictL multiKids := by simp only [multiKids, FNode.Strict, StrictL]; decide
+theorem multiKids_noWrapper : NoWrapperL multiKids := by simp only [multiKids, FNode.NoWrapper, NoWrapperL]; decide
+theorem multiKids_multi : topScan false multiKids = none := by decide
+
+/-- `pretty_text_stable_multi` applies to it (with a doctype, tab indent) … -/
+example : ∃ out1 toks2 out2 toks3 out3,
+    format (mkCfg .pretty (.str (str "\t")) false) (strictToksM (some (str "doctype html")) multiKids) = .ok out1 ∧
+    lexStrict out1 = some toks2 ∧ format (mkCfg .pretty (.str (str "\t")) false) (toks2.map Tok.ofToken) = .ok out2 ∧
+    lexStrict out2 = some toks3 ∧ format (mkCfg .pretty (.str (str "\t")) false) (toks3.map Tok.ofToken) = .ok out3 ∧
+    out3 = out2 :=
+  pretty_text_stable_multi _ rfl (by decide) _ (by decide) _ multiKids_strict multiKids_noWrapper multiKids_multi
+
+/-- … and so does the layout law (slim class) -/
+example : ∃ out1 toks2 out2 toks3, format (mkCfg .slim .dflt true) (strictToksM none multiKids) = .ok out1 ∧
+    lexStrict out1 = some toks2 ∧ format (mkCfg .slim .dflt true) (toks2.map Tok.ofToken) = .ok out2 ∧
+    lexStrict out2 = some toks3 ∧ tagStack [] toks3 = [] :=
+  let ⟨o1, t2, o2, t3, h1, h2, h3, h4, h5, _⟩ := pretty_text_layout_multi_second_pass (mkCfg .slim .dflt true) rfl
+    (by decide) none trivial _ multiKids_strict multiKids_noWrapper multiKids_multi
+  ⟨o1, t2, o2, t3, h1, h2, h3, h4, h5⟩
+
+/-- the texts: pass 1 and pass 2 (= pass 3) of the multi-root document -/
+example : okIs (format (mkCfg .pretty (.str (str "\t")) false) (strictToksM (some (str "doctype html")) multiKids))
+    "<!doctype html>\na \n<b >x\n\t<i >\n\t</i>\n</b>&amp;\n<br />\n<p >y\n</p>" = true := by decide +kernel
+/-- `mini_output_fixed_point_text_multi` applies to it -/
+example : ∃ out toks2, format (mkCfg .mini .dflt false) (strictToksM (some (str "doctype html")) multiKids) = .ok out ∧
+    lexStrict out = some toks2 ∧ format (mkCfg .mini .dflt false) (toks2.map Tok.ofToken) = .ok out :=
+  mini_output_fixed_point_text_multi _ rfl (by decide) _ (by decide) _ multiKids_strict
+    (by simp only [multiKids, FNode.Glued, GluedL, FNoAdjL, fisDataTok]; decide)
+    (by simp only [multiKids, FNoAdjL, fisDataTok]; decide) multiKids_noWrapper multiKids_multi
+
+/-- `mini_output_text_runs` applies to `stableTree` (adjacent data blocks `a`, ` b\n`; a `pre`; a `script`), slim-mini
+    class, with a doctype -/
+example : ∃ out body, format (mkCfg .slimMini .dflt true) (strictToks (some (str "DOCTYPE html")) stableTree) = .ok out ∧
+    lexStrict out = some (dtToks (some (str "DOCTYPE html")) ++ glueDt (str "\n") body) ∧
+    (∀ p ∈ textRuns body, miniCare p.1 = true → GoodText p.2) :=
+  let ⟨out, body, h1, h2, _, h4⟩ := mini_output_text_runs (mkCfg .slimMini .dflt true) rfl (by decide) _
+    (noWrapperStart_strictToks _ _ stableTree_strict stableTree_noWrapper) _
+    (plain_feed_strictToks (some (str "DOCTYPE html")) (by decide) _ _ _ _ stableTree_strict) _ _ _ _ rfl (by decide)
+    stableTree_strict (by decide)
+  ⟨out, body, h1, h2, h4⟩
+
+/-- the text and its runs: `a` and ` b\n` were squeezed separately and touch; the run inside `pre` keeps its blanks and
+    the `script` content its text (`miniCare` false there) -/
+example : okIs (format (mkCfg .mini .dflt false) (strictToks (some (str "DOCTYPE html")) stableTree))
+    "<!DOCTYPE html>\n<div >a b<p >x<br /></p><pre ><span >  y  </span></pre>&amp;<script >if (a < b) { s = 1; }</script></div>"
+    = true := by decide +kernel
+example : (textRuns [Token.start (str "div") [], .data (str "a b"), .start (str "p") [], .data (str "x"),
+      .startend (str "br") [], .end_ (str "p"), .start (str "pre") [], .start (str "span") [], .data (str "  y  "),
+      .end_ (str "span"), .end_ (str "pre"), .entity (str "amp"), .start (str "script") [],
+      .data (str "if (a < b) { s = 1; }"), .end_ (str "script"), .end_ (str "div")]).map (fun p => (miniCare p.1, p.2))
+    = [(true, str "a b"), (true, str "x"), (false, str "  y  "), (true, str "&amp;"),
+       (false, str "if (a < b) { s = 1; }")] := by decide +kernel
+
+/-- `mini_output_text_runs` on the multi-root document -/
+example : ∃ out body, format (mkCfg .mini .dflt false) (strictToksM (some (str "doctype html")) multiKids) = .ok out ∧
+    lexStrict out = some (dtToks (some (str "doctype html")) ++ glueDt (str "\n") body) ∧
+    (∀ p ∈ textRuns body, miniCare p.1 = true → GoodText p.2) :=
+  let ⟨out, body, h1, h2, _, h4⟩ := mini_output_text_runs (mkCfg .mini .dflt false) rfl (by decide) _
+    (noWrapperStart_toksM _ _ multiKids_strict multiKids_noWrapper) _
+    (plain_feed_strictToksM (some (str "doctype html")) (by decide) _ multiKids_strict multiKids_multi) _ _ _ _ rfl
+    (by decide) (strict_wrapperElem _ multiKids_strict) (by decide)
+  ⟨out, body, h1, h2, h4⟩
+
+/-- `pretty_text_stable_tokens` applies to `openTailToks` (implicit close, two elements left open) -/
+example : ∃ out1 toks2 out2 toks3 out3, format (mkCfg .pretty .dflt false) openTailToks = .ok out1 ∧
+    lexStrict out1 = some toks2 ∧ format (mkCfg .pretty .dflt false) (toks2.map Tok.ofToken) = .ok out2 ∧
+    lexStrict out2 = some toks3 ∧ format (mkCfg .pretty .dflt false) (toks3.map Tok.ofToken) = .ok out3 ∧ out3 = out2 :=
+  pretty_text_stable_tokens (mkCfg .pretty .dflt false) rfl (by decide)
+    _ _ _ _ (by simp only [FNode.Strict, StrictL]; decide)
+    (by simp only [FNode.NoWrapper, NoWrapperL]; decide) openTailToks (by decide) _ rfl
+    (show _ = some openTailTree.toNode from rfl) trivial
+/-- a multi-root token sequence with an implicit close and an unclosed element: `a<ul><li>x</ul><p>y` -/
+def multiOpenToks : List Tok :=
+  [.data (str "a"), .start (str "ul") [], .start (str "li") [], .data (str "x"), .end_ (str "ul"), .start (str "p") [],
+   .data (str "y")]
+def multiOpenKids : List FNode :=
+  [.tok (.data (str "a")), .elem (str "ul") {} false [.elem (str "li") {} false [.tok (.data (str "x"))]],
+   .elem (str "p") {} false [.tok (.data (str "y"))]]
+example : ∃ out1 toks2 out2 toks3 out3, format (mkCfg .pretty .dflt false) multiOpenToks = .ok out1 ∧
+    lexStrict out1 = some toks2 ∧ format (mkCfg .pretty .dflt false) (toks2.map Tok.ofToken) = .ok out2 ∧
+    lexStrict out2 = some toks3 ∧ format (mkCfg .pretty .dflt false) (toks3.map Tok.ofToken) = .ok out3 ∧ out3 = out2 :=
+  pretty_text_stable_tokens_multi (mkCfg .pretty .dflt false) rfl (by decide) multiOpenKids
+    (by simp only [multiOpenKids, FNode.Strict, StrictL]; decide)
+    (by simp only [multiOpenKids, FNode.NoWrapper, NoWrapperL]; decide) (by decide) multiOpenToks (by decide) _ rfl
+    (show _ = some (FNode.elem wrapper {} false multiOpenKids).toNode from rfl) trivial
+example : okIs (format (mkCfg .pretty .dflt false) multiOpenToks)
+    "a\n<ul >\n  <li >x\n  </li>\n</ul>\n<p >y\n</p>" = true := by decide +kernel
 
 /-- the texts in question: pass 1, and pass 2 = pass 3 (what the model's formatter and lexer compute) -/
 example : okIs (format (mkCfg .pretty .dflt false) (strictToks (some (str "DOCTYPE html")) stableTree))
